@@ -337,7 +337,9 @@ where
 //@spec
     ensures
         r is Ok ==> final(self).write_buf@ == old(self).write_buf@ + U::enc(item),   // [C14]
+        old(self).write_buf@.is_prefix_of(final(self).write_buf@),   // [C14] a rejected item never costs an accepted one
         final(self).io == old(self).io,
+        final(self).read_buf == old(self).read_buf && final(self).flags == old(self).flags,
 //@end
 
 //@extract file=actix-codec/src/framed.rs item="impl<T, U, I> Sink<I> for Framed<T, U> / fn poll_flush" ret=r props=C14,C13
